@@ -58,6 +58,9 @@ def tier_sizes(tier, quick, thorough):
     return thorough if tier == 'thorough' else quick
 
 
+import subprocess
+
+
 def big_files_via_cli(chk, exe, wd, huge_pool=False):
     """programs larger than the file buffers saved and loaded through the real CLI, compared with the in-memory cycle (FMLObservations)"""
     # large files through the real command line: `fml compile -o` / `fml execute` / `fml disassemble` read and write through buffered files
@@ -67,6 +70,10 @@ def big_files_via_cli(chk, exe, wd, huge_pool=False):
     bouts = compile_pool(exe, bigs, wd, ['run', 'bytes2'], 'c03big', budget=100000)
     for i, o in enumerate(bouts):
         if 'bytes' not in o:
+            if 'expect' in bigs[i]:
+                chk.violation('%s: a valid program could not be compiled and serialized (%s)' % (bigs[i]['name'], str(o.get('compile_msg') or o.get('crash') or o.get('compile') or '')[:200]),
+                              {'program': bigs[i]['name'], 'source': bigs[i]['text'][-200:], 'observed': {k: o.get(k) for k in ('parse', 'compile', 'crash', 'compile_msg') if k in o},
+                               'signature': {'kind': 'big-program-refused', 'program': bigs[i]['name']}})
             continue
         name = bigs[i]['name']
         run = o.get('run') or {}
@@ -91,6 +98,32 @@ def big_files_via_cli(chk, exe, wd, huge_pool=False):
                 subprocess.run([exe, 'compile', js, '-o', bc2], stdout=subprocess.PIPE, stderr=subprocess.PIPE).returncode == 0:
             obs.append({'key': name + ' :: bytes', 'val': {'d': hashlib.sha1(open(bc2, 'rb').read()).hexdigest()}, 'cfg': '`fml compile -o FILE` (buffered file writer)'})
         chk.count(hashlib.sha1(bytes(o['bytes'])).hexdigest())
+    if huge_pool:
+        # constant pools of every size 4..519 (every value of the file's first byte) through the real loader entry points of the CLI
+        from concurrent.futures import ThreadPoolExecutor
+        sw = pool.sweep_programs()
+        souts = compile_pool(exe, sw, wd, ['run'], 'c03sw', budget=5000)
+
+        def one(i):
+            o = souts[i]
+            if 'bytes' not in o:
+                return [{'key': sw[i]['name'] + ' :: outcome', 'val': {'ok': True, 'out': hashlib.sha1(sw[i]['expect']).hexdigest()}, 'cfg': 'prescribed output'},
+                        {'key': sw[i]['name'] + ' :: outcome', 'val': {'ok': False, 'out': ''}, 'cfg': 'in-process compile + serialize (refused)'}]
+            bc = os.path.join(wd, 'sw%d.bc' % i)
+            open(bc, 'wb').write(bytes(o['bytes']))
+            run = o.get('run') or {}
+            r = [{'key': sw[i]['name'] + ' :: outcome', 'val': {'ok': True, 'out': hashlib.sha1(sw[i]['expect']).hexdigest()}, 'cfg': 'prescribed output'},
+                 {'key': sw[i]['name'] + ' :: outcome', 'val': {'ok': bool(run.get('ok')), 'out': hashlib.sha1(bytes(run.get('out', []))).hexdigest()}, 'cfg': 'in-process load from memory'}]
+            p1 = subprocess.run([exe, 'execute', bc], stdout=subprocess.PIPE, stderr=subprocess.PIPE, timeout=120)
+            r.append({'key': sw[i]['name'] + ' :: outcome', 'val': {'ok': p1.returncode == 0, 'out': hashlib.sha1(p1.stdout).hexdigest()}, 'cfg': '`fml execute FILE`'})
+            p2 = subprocess.run([exe, 'execute'], stdin=open(bc, 'rb'), stdout=subprocess.PIPE, stderr=subprocess.PIPE, timeout=120)
+            r.append({'key': sw[i]['name'] + ' :: outcome', 'val': {'ok': p2.returncode == 0, 'out': hashlib.sha1(p2.stdout).hexdigest()}, 'cfg': '`fml execute` < stdin'})
+            return r
+        with ThreadPoolExecutor(max_workers=12) as ex:
+            for r in ex.map(one, range(len(sw))):
+                obs += r
+        bigs = bigs + sw
+        chk.notes['pool_size_sweep'] = len(sw)
     if obs:
         opath = os.path.join(wd, 'bigobs.ndjson')
         write_ndjson(opath, obs)
@@ -149,6 +182,16 @@ def c04(tier):
     chk.traces += judge_bytecode(chk, xr, wd, 'c04b', names, {'decodable', 'no_trailing', 'loads', 'loaded_same'})
     if gen:
         chk.sample({'program': 'spec-generated:0', 'bytes': gen[0]['bytes'][:40]})
+    # the largest constant pool the format can hold (65535 entries; thorough) and one entry more (which a writer must refuse, never wrap): compiled by the release build (the compiler's pool lookup is quadratic)
+    def pool_of(n):
+        return {'name': 'limit:pool-of-%d-constants' % n, 'text': '; '.join(str(k) for k in range(1000, 1000 + n - 4)) + '; print("~\\n", 1)', 'ast': None}
+    xl = [pool_of(65536)] + ([pool_of(65535)] if tier == 'thorough' else [])
+    louts = compile_pool(build('release'), xl, wd, ['prog', 'prog2', 'bytes2'], 'c04xl', budget=10)
+    lrecs = bytecode_records(louts)
+    chk.notes['pool_limit_programs'] = {xl[i]['name']: ('serialized' if 'bytes' in o and o.get('crash') is None else 'refused') for i, o in enumerate(louts)}
+    if tier == 'thorough' and chk.notes['pool_limit_programs'].get('limit:pool-of-65535-constants') != 'serialized':
+        chk.violation('limit:pool-of-65535-constants: a program the format can hold was refused', {'program': 'limit:pool-of-65535-constants', 'signature': {'kind': 'limit-refused'}})
+    chk.traces += judge_bytecode(chk, lrecs, wd, 'c04l', xl, clauses)
     chk.notes['large_files_through_cli'] = big_files_via_cli(chk, exe, wd, huge_pool=(tier == 'thorough'))
     chk.notes['spec_generated_programs'] = len(gen)
     chk.notes['compiled_programs'] = len(recs)
@@ -171,7 +214,7 @@ def c03(tier):
     recs = bytecode_records(outs)
     for r in recs:
         chk.count(hashlib.sha1(bytes(r['bytes'])).hexdigest())
-    clauses = {'decodable', 'denotes_prog', 'loads', 'loaded_same', 'loaded_layout', 'resave_same', 'same_behaviour'}
+    clauses = {'decodable', 'denotes_prog', 'loads', 'loaded_same', 'loaded_layout', 'loaded_labels', 'resave_same', 'same_behaviour'}
     chk.traces += judge_bytecode(chk, recs, wd, 'c03a', progs, clauses)
     for r in recs[:3]:
         chk.sample({'program': progs[r['id']]['name'], 'bytes_len': len(r['bytes']), 'out_len': len(r['out']), 'ok': r['ok']})
@@ -184,7 +227,7 @@ def c03(tier):
     xr = bytecode_records(xouts, with_prog=False)
     for r in xr:
         chk.count(hashlib.sha1(bytes(r['bytes'])).hexdigest())
-    chk.traces += judge_bytecode(chk, xr, wd, 'c03b', names, {'loads', 'loaded_same', 'loaded_layout', 'resave_same'})
+    chk.traces += judge_bytecode(chk, xr, wd, 'c03b', names, {'loads', 'loaded_same', 'loaded_layout', 'loaded_labels', 'resave_same'})
     nbig = big_files_via_cli(chk, exe, wd, huge_pool=True)
     chk.notes['large_files_through_cli'] = nbig
     chk.notes['spec_generated_programs'] = len(gen)
